@@ -165,7 +165,15 @@ func constructField(fieldType string, spec *field.Spec, index string) (f field.F
 		}
 	}()
 
-	return constructor(spec), nil
+	f = constructor(spec)
+
+	// only composites work without an encoder; any other field without one
+	// panics when packed
+	if _, ok := f.(*field.Composite); !ok && spec.Enc == nil {
+		return nil, fmt.Errorf("missing encoding for field: %s", index)
+	}
+
+	return f, nil
 }
 
 func importField(dummyField *fieldDummy, index string) (*field.Spec, error) {
